@@ -92,6 +92,8 @@ class Universe:
         checksum = csalg = size = None
         if rng.random() < 0.6:
             a, sp = self.alg_spelling()
+            if rng.random() < 0.2:
+                a = sp = self.alg          # the store's own algorithm, spelled as the store spells it
             d = self.contents.digest(tok, a)
             r = rng.random()
             if r < p_wrong:
@@ -132,6 +134,8 @@ class Universe:
             add = None
             if rng.random() < 0.4:
                 add = self.alg_spelling()[1]
+                if ca is not None and rng.random() < 0.35:
+                    add = ca               # the caller names the same algorithm twice
             return store_object(self.pid(), self.data_ok(tok), add, cs, ca, size)
         if k == "store_data":
             return store_object(None, self.data_ok())
